@@ -846,7 +846,8 @@ pub fn gen_and_run(seed: u64, index: u64, scratch: &str, cfg: &GenCfg, fenced: &
 pub fn enumerate_faults(seed: u64, index: u64, scratch: &str, fenced: &BTreeSet<String>, stride: usize) -> Vec<C13Scenario> {
     let mut rng = Rng::new(seed ^ 0xE17).fork(index);
     let builtins = corpus::builtin_names();
-    let nfiles = rng.range(1, 3) as usize;
+    // every other enumerated project has at least two files: "between two file writes" exists
+    let nfiles = (rng.range(1, 3) as usize).max(if index % 2 == 0 { 2 } else { 1 });
     let (files, bystanders, _) = gen_project(&mut rng, fenced, &builtins, nfiles);
     let base = C13Scenario {
         property: "C13".into(),
